@@ -62,6 +62,8 @@ def exactArith : PArith Int where
   lt a b := decide (a < b)
   le a b := decide (a ≤ b)
   range := rangeExact
+  ofInt i := i * 100
+  floorI32 x := x / 100
 
 theorem exactArith_rangeLaw : RangeLaw exactArith :=
   ⟨fun lo hi n h1 h2 h3 => ⟨(rangeExact_bounds lo hi n h1 h3).1, (rangeExact_bounds lo hi n h1 h3).2.2 h2⟩⟩
@@ -84,10 +86,13 @@ theorem getRandomColumn_bounds {A : PArith F} (hA : RangeLaw A) (s : Osu) (lo hi
 /-! ## patterns -/
 
 /-- every note of the pattern lies in a column below `T` -/
-def PatOk (T : Nat) (p : Pat) : Prop := ∀ n ∈ p.notes, n.col < T
+def PatOk (T : Nat) (p : Pat) : Prop :=
+  (∀ n ∈ p.notes, n.col < T) ∧ (∀ c, p.cols.testBit c = true → c < T)
 
 theorem PatOk.empty (T : Nat) : PatOk T Pat.empty := by
-  intro n hn; cases hn
+  constructor
+  · intro n hn; cases hn
+  · intro c hc; simp [Pat.empty] at hc
 
 theorem Pat.add_notes {p p' : Pat} {c : Nat} {t : NoteTime} (h : p.add c t = .ok p') :
     p'.notes = p.notes ++ [⟨c, t⟩] := by
@@ -96,13 +101,31 @@ theorem Pat.add_notes {p p' : Pat} {c : Nat} {t : NoteTime} (h : p.add c t = .ok
   · cases h
   · cases h; rfl
 
+theorem Pat.add_cols' {p p' : Pat} {c : Nat} {t : NoteTime} (h : p.add c t = .ok p') :
+    p'.cols = p.cols ||| 2 ^ c := by
+  unfold Pat.add Cols.insert shl16 at h
+  split at h
+  · cases h
+  · rename_i c' hs
+    split at hs
+    · cases hs
+    · rename_i b hb
+      split at hb
+      · cases hb; cases hs; cases h; rfl
+      · cases hb
+
 theorem PatOk.add {T : Nat} {p p' : Pat} {c : Nat} {t : NoteTime} (hp : PatOk T p) (hc : c < T)
     (h : p.add c t = .ok p') : PatOk T p' := by
-  intro n hn
-  rw [Pat.add_notes h, List.mem_append] at hn
-  rcases hn with hn | hn
-  · exact hp n hn
-  · simp only [List.mem_singleton] at hn; subst hn; exact hc
+  refine ⟨fun n hn => ?_, fun b hb => ?_⟩
+  · rw [Pat.add_notes h, List.mem_append] at hn
+    rcases hn with hn | hn
+    · exact hp.1 n hn
+    · simp only [List.mem_singleton] at hn; subst hn; exact hc
+  · rw [Pat.add_cols' h, Nat.testBit_or, Nat.testBit_two_pow] at hb
+    simp only [Bool.or_eq_true, decide_eq_true_eq] at hb
+    rcases hb with hb | hb
+    · exact hp.2 b hb
+    · omega
 
 theorem PatOk.single {T c : Nat} {t : NoteTime} {p : Pat} (hc : c < T) (h : Pat.single c t = .ok p) :
     PatOk T p := PatOk.add (PatOk.empty T) hc h
@@ -124,11 +147,15 @@ theorem Pat.single_lt16 {p : Pat} {c : Nat} {t : NoteTime} (h : Pat.single c t =
   Pat.add_lt16 h
 
 theorem PatOk.append {T : Nat} {p q : Pat} (hp : PatOk T p) (hq : PatOk T q) : PatOk T (p.append q) := by
-  intro n hn
-  simp only [Pat.append, List.mem_append] at hn
-  rcases hn with hn | hn
-  · exact hp n hn
-  · exact hq n hn
+  refine ⟨fun n hn => ?_, fun b hb => ?_⟩
+  · simp only [Pat.append, List.mem_append] at hn
+    rcases hn with hn | hn
+    · exact hp.1 n hn
+    · exact hq.1 n hn
+  · simp only [Pat.append, Nat.testBit_or, Bool.or_eq_true] at hb
+    rcases hb with hb | hb
+    · exact hp.2 b hb
+    · exact hq.2 b hb
 
 /-! ## `find_available_column`: the result is the initial column or a draw of the column source -/
 
